@@ -28,7 +28,9 @@ Inductive op :=
 | OGate1 (h : nat) (g : g1)
 | OGate2 (h1 h2 : nat) (g : g2)
 | OSend (h : nat) (target : nat)
-| OMeas (h : nat) (inplace coin : bool).
+| OMeas (h : nat) (inplace coin : bool)
+| ONewReg (n : nat) (maxq : nat)              (* remote_add_register(maxQubits=maxq) at node n: a new EMPTY register *)
+| ONewInReg (n : nat) (owner : nat) (k : nat). (* remote_new_qubit_inreg(reg) at node n, reg = register number k of node `owner` *)
 Inductive kind := KNoQubit | KQuantum | KVirtNet | KUnsupported | KValue
   | KCrash.   (* never produced by the model: an undocumented exception / hang of the implementation *)
 Inductive out := Ok (v : nat) | OkNone | Ignored | Err (k : kind).
@@ -131,6 +133,42 @@ Definition op_new (s : net) (i : nat) : net * out :=
            let nd4 := with_virt nd3 (virt nd3 ++ [mkVq (next_hid s) newNum i simNum (next_hid s)]) in
            (mkNet (upd (nodes s) i nd4) (S (next_hid s)), Ok newNum)
        end.
+
+(* ---- client-made registers ---------------------------------------------------------------------- *)
+(* remote_add_register(maxQubits=mq) -> remote_new_register: refused at the register limit, otherwise an EMPTY register
+   with the next (monotone) number and capacity mq is stored; the register object is returned (named here by its number) *)
+Definition op_newreg (s : net) (i mq : nat) : net * out :=
+  let nd := nth_node s i in
+  if Nat.leb (maxR nd) (numRegs nd) then (s, Err KQuantum)
+  else let r := mkReg (nextReg nd) mq 0 [] [] in
+       (set_node s i (mkNode (virt nd) (sims nd) (regs nd ++ [r]) (S (numRegs nd)) (S (nextReg nd)) (maxQ nd) (maxR nd)),
+        Ok (nextReg nd)).
+
+(* remote_new_qubit_inreg(reg) at node i, reg = register k of node `owner`.
+   reg.simNode != myID is refused before any lock; the held-qubit limit is checked under the node lock; then
+   simulatedQubit.make_fresh -> engine.add_fresh_qubit raises noQubitError when the register holds r_max qubits already
+   (nothing was changed yet: get_sim_id only reads).  The code never checks that `reg` is (still) one of the node's
+   registers: a client that keeps a register object after its last qubit was measured out (remote_delete_register) or
+   after it was absorbed by a merge gets a qubit in an engine the node no longer lists.  That input is outside the
+   model (answered Ignored, state unchanged, like the other inputs the harness never generates). *)
+Definition op_new_inreg (s : net) (i owner k : nat) : net * out :=
+  if negb (Nat.eqb owner i) then (s, Err KQuantum)
+  else
+    let nd := nth_node s i in
+    if Nat.leb (maxQ nd) (length (virt nd)) then (s, Err KNoQubit)
+    else match find_reg k (regs nd) with
+         | None => (s, Ignored)                      (* not generated: register object no longer listed by the node *)
+         | Some r =>
+             if Nat.leb (r_max r) (r_n r) then (s, Err KNoQubit)
+             else
+               let simNum := fresh_id (map s_simNum (sims nd)) in
+               let r1 := reg_with_ids (reg_with_tab r (S (r_n r)) (add_qubit (r_n r) (r_tab r))) (r_ids r ++ [next_hid s]) in
+               let nd2 := with_regs nd (set_reg (regs nd) r1) (numRegs nd) in
+               let nd3 := with_sims nd2 (sims nd2 ++ [mkSq simNum k (r_n r)]) in
+               let newNum := fresh_id (map v_num (virt nd3)) in
+               let nd4 := with_virt nd3 (virt nd3 ++ [mkVq (next_hid s) newNum i simNum (next_hid s)]) in
+               (mkNet (upd (nodes s) i nd4) (S (next_hid s)), Ok newNum)
+         end.
 
 (* ---- single-qubit gate -------------------------------------------------------------------------- *)
 Definition locate (s : net) (q : vq) : option (sq * reg) :=
@@ -341,6 +379,8 @@ Definition step (s : net) (o : op) : net * out :=
   | OGate2 h1 h2 g => op_gate2 s h1 h2 g
   | OSend h t => op_send s h t
   | OMeas h ip c => op_meas s h ip c
+  | ONewReg n mq => if Nat.ltb n (length (nodes s)) then op_newreg s n mq else (s, Ignored)
+  | ONewInReg n owner k => if Nat.ltb n (length (nodes s)) then op_new_inreg s n owner k else (s, Ignored)
   end.
 
 Definition run (s : net) (ops : list op) : net := fold_left (fun st o => fst (step st o)) ops s.
